@@ -153,7 +153,15 @@ class World:
 
 # ------------------------------------------------------------------ observation
 def _num(x):
+    """typed and exact, except that -0.0 and 0.0 are the same observation: they are equal under ==,
+    and which of the two min()/max() return for a tie depends on argument order, not on behaviour"""
+    if isinstance(x, float) and x == 0.0:
+        return "0.0"
     return repr(x)
+
+
+def _entry(e):
+    return "(" + type(e).__name__ + "".join(", " + (_num(v) if isinstance(v, (int, float)) else repr(v)) for v in e) + ")"
 
 
 def obs_tier(t):
@@ -162,9 +170,9 @@ def obs_tier(t):
     return (
         type(t).__name__,
         t.name,
-        repr(tuple((type(e).__name__,) + tuple(e) for e in t.entries)),
-        repr(t.minTimestamp),
-        repr(t.maxTimestamp),
+        "[" + ", ".join(_entry(e) for e in t.entries) + "]",
+        _num(t.minTimestamp),
+        _num(t.maxTimestamp),
     )
 
 
@@ -172,8 +180,8 @@ def obs_tg(tg):
     return (
         "Textgrid",
         tuple(tg.tierNames),
-        repr(tg.minTimestamp),
-        repr(tg.maxTimestamp),
+        _num(tg.minTimestamp),
+        _num(tg.maxTimestamp),
         tuple(obs_tier(t) for t in tg.tiers),
     )
 
